@@ -248,3 +248,26 @@ def poly_of(node, env=None, calls=None, strict=False):
         return None if strict else P.sym(txt)
 
     return rec(node)
+
+
+def local_env(fnode, env=None, calls=None):
+    """Def-use substitution for single-assignment locals of a function: name -> polynomial of its
+    defining expression (in terms of `env`).  Locals assigned more than once are left symbolic."""
+    env = dict(env or {})
+    counts = {}
+    for n in ast.walk(fnode):
+        if isinstance(n, ast.Assign) and len(n.targets) == 1 and isinstance(n.targets[0], ast.Name):
+            counts[n.targets[0].id] = counts.get(n.targets[0].id, 0) + 1
+        elif isinstance(n, (ast.AugAssign, ast.For, ast.comprehension)):
+            t = n.target
+            for x in ast.walk(t):
+                if isinstance(x, ast.Name):
+                    counts[x.id] = counts.get(x.id, 0) + 2
+    body = fnode.body if isinstance(fnode.body, list) else []
+    for n in body:
+        if isinstance(n, ast.Assign) and len(n.targets) == 1 and isinstance(n.targets[0], ast.Name) \
+                and counts.get(n.targets[0].id) == 1 and n.targets[0].id not in env:
+            p = poly_of(n.value, env, calls, strict=True)
+            if p is not None:
+                env[n.targets[0].id] = p
+    return env
